@@ -5,7 +5,7 @@ process simulates the regenerated Reg.clock over every input history.
 Per run (translation validation over programs): the real generator's text for each design is parsed (round-trip checked), elaborated
 in Coq, (a) every inlined primitive / Reg instance of the live netlist is matched SYNTACTICALLY against the emitter models the theorems
 talk about, (b) the text is EXECUTED in the Coq Verilog semantics against the real cycle simulator on the same stimulus."""
-import random, traceback
+import random, traceback, zlib
 import common, vlog, vparse, blocks
 from common import quiet, zlit
 
@@ -151,6 +151,8 @@ def make_case(rng, label, ins, outs, body, n_steps=8):
     text = vlog.emit(top)
     nz = ('b',) if label in ('Div', 'Mod') else ()
     steps = blocks.stimulus(rng, ins, n_steps, nonzero=nz)
+    srng = random.Random(zlib.crc32(label.encode()) + len(steps))       # settle-only (0 cycles) and two-cycle steps besides single cycles
+    steps = [(pk, srng.choice([1, 1, 1, 0, 2])) for pk, _ in steps]
     trace = vlog.run_impl(hw, top, steps)
     if nz: trace[0] = None                      # before the first poke b = 0: division by zero, excluded by the property
     return dict(label=label, hw=hw, top=top, ins=ins, steps=steps, trace=trace, text=text)
@@ -171,6 +173,22 @@ def known_witnesses(ctx):
               'EqK', [('a', 3)], [('r', 1)], lambda t, i, o: P.EqualConstant(t, 'x', i['a'], 9, o['r']), [([('a', 1)], 0)]))
     W.append(('xor2-mixed-widths', 'Xor2 whose result is wider than operand a: the simulated NAND network leaves ones in the upper result bits (C08-xor2-wide-result), the inlined `a ^ b` zero-extends',
               'Xor2w', [('a', 1), ('b', 2)], [('r', 2)], lambda t, i, o: P.Xor2(t, 'x', i['a'], i['b'], o['r']), [([('a', 0), ('b', 0)], 0)]))
+    def msgseq(t, i, o):
+        from py4hw.logic.protocol.uart.sequencer import MsgSequencer
+        return MsgSequencer(t, 'x', i['ready'], o['valid'], o['v'], 'Hey!')
+    W.append(('msgsequencer-ready-polarity', 'MsgSequencer.verilogBody() tests `ready == 1` where clock() tests `ready == 0` in the VALID state: with ready held high the simulator '
+              'sends one character every two cycles, the Verilog never lowers valid',
+              'MsgSeq', [('ready', 1)], [('valid', 1), ('v', 8)], msgseq, [([('ready', 1)], 1)] * 6))
+    mem_ins = [('ra', 2), ('wa', 2), ('we', 1), ('wd', 4)]
+    W.append(('dualport-async-read', 'DualPortSynchronousMemory.verilogBody() reads the array combinationally (`assign readdata_a = mem[read_address_a]`), clock() registers the read: '
+              'the Verilog shows a written word one cycle before the simulator',
+              'DualMem', mem_ins + [('rb', 2), ('wb', 2), ('web', 1), ('wdb', 4)], [('rd', 4), ('rdb', 4)],
+              lambda t, i, o: P.DualPortSynchronousMemory(t, 'x', i['ra'], i['wa'], i['we'], o['rd'], i['wd'], i['rb'], i['wb'], i['web'], o['rdb'], i['wdb']),
+              [([('ra', 1), ('wa', 1), ('we', 1), ('wd', 5), ('rb', 0), ('wb', 0), ('web', 0), ('wdb', 0)], 1)] * 2))
+    W.append(('asyncmem-read-before-write', 'AsynchronousMemory.propagate() reads before it writes: one evaluation with write=1 and read_address == write_address leaves the OLD word '
+              'on readdata (a second evaluation shows the new one), the Verilog `always @(*) if (write) mem[..] = ..` is transparent',
+              'AsyncMem', mem_ins, [('rd', 4)], lambda t, i, o: P.AsynchronousMemory(t, 'x', i['ra'], i['wa'], i['we'], o['rd'], i['wd']),
+              [([('ra', 1), ('wa', 1), ('we', 1), ('wd', 5)], 0)]))
     def two_adders(t, i, o):
         P.Add(t, 'dbl', i['x'], i['x'], o['r1'])          # both operands on the same wire: emitted first, its body is `r = b + b + ci`
         P.Add(t, 'sum', i['a'], i['b'], o['r2'])          # same module name Add4: bound to the first body
